@@ -487,7 +487,7 @@ class Gen:
 
     def func(self):
         rng = self.rng
-        kind = self.force.get("kind", rng.choice(["sync"] * 10 + ["async"] * 6 + ["boxed"] * 3 + ["implfut"]))
+        kind = self.force.get("kind", rng.choice(["sync"] * 10 + ["async"] * 6 + ["boxed"] * 3 + ["implfut"] + ["oldtrait"] * 3))
         recv, groups, binds = self.params()
         shape = self.force.get("shape", rng.choice(SHAPES))
         live0 = {b["i"] for b in binds if b["ty"] == "rec" and b["owned"] and b["access"] != "none"}
@@ -553,14 +553,14 @@ def build_generated(n, seed):
     fns = []
     # systematic: every (kind x ret x err) template several times, then random
     forced = []
-    for kind in ("sync", "async", "boxed", "implfut"):
+    for kind in ("sync", "async", "boxed", "implfut", "oldtrait"):
         for ret in (False, True):
             for err in (False, True):
                 for rep in range(2 if kind in ("sync", "async") else 1):
                     shape = rng.choice(["res_num_er", "res_rec_er", "res_num_rec"]) if err or rng.random() < 0.3 else rng.choice(SHAPES)
                     forced.append({"kind": kind, "ret": ret, "err": err, "shape": shape})
     for recv in ("ref", "mut", "val"):
-        for kind in ("sync", "async", "boxed"):
+        for kind in ("sync", "async", "boxed", "oldtrait", "oldtrait"):
             forced.append({"kind": kind, "recv": recv})
     for gk in GROUP_KINDS:
         forced.append({"groups": [gk, "val"], "kind": "sync"})
@@ -778,6 +778,24 @@ def render_fn(fn, twin, order_rng):
         ret = "" if shape == "unit" else " -> " + (rt + " + 'a" if shape.startswith("impl") else rt)
         return "    %spub async fn %s%s(%s)%s {\n%s    }\n" % (attr, name, generics, ", ".join(params), ret, body)
     inner_t = CONCRETE.get(shape, rt)
+    if kind == "oldtrait":
+        # async-trait <= 0.1.43 / hand-written: an inner `async fn` helper, called and pinned by the annotated function
+        # (`AsyncKind::Function`).  The receiver is handed on as `_self`; the attribute keeps talking about `self`.
+        fnb = dict(fn, binds=[dict(b, name="_self") if b["name"] == "self" else b for b in fn["binds"]])
+        body = r_stmt(fnb, fn["body"], 3) + "            " + r_expr(fnb, fn["tail"], res_ty(fn)) + "\n"
+        helper = ("__%s" % name) if fn["recv"] else ("%s_impl" % name)
+        outer, inner, call = [], [], []
+        if fn["recv"]:
+            outer.append({"val": "self", "ref": "&'a self", "mut": "&'a mut self"}[fn["recv"]])
+            inner.append({"val": "_self: R", "ref": "_self: &'a R", "mut": "_self: &'a mut R"}[fn["recv"]])
+            call.append("self")
+        for k, g in enumerate(fn["groups"]):
+            outer.append("a%d: %s" % (k, g["sig"].rsplit(": ", 1)[1]))
+            inner.append(g["sig"])
+            call.append("a%d" % k)
+        return ("    %spub fn %s%s(%s) -> Pin<Box<dyn Future<Output = %s> + 'a>> {\n        async fn %s%s(%s) -> %s {\n%s        }\n"
+                "        Box::pin(%s(%s))\n    }\n"
+                % (attr, name, generics, ", ".join(outer), inner_t, helper, generics, ", ".join(inner), inner_t, body, helper, ", ".join(call)))
     if kind == "boxed":
         return ("    %spub fn %s%s(%s) -> Pin<Box<dyn Future<Output = %s> + 'a>> {\n        Box::pin(async move {\n%s        })\n    }\n"
                 % (attr, name, generics, ", ".join(params), inner_t, body))
@@ -908,7 +926,7 @@ def c_param(b):
 
 
 def c_func(fn):
-    kind = {"sync": "KSync", "async": "KAsync", "boxed": "KBoxed", "implfut": "KBoxed"}[fn["kind"]]
+    kind = {"sync": "KSync", "async": "KAsync", "boxed": "KBoxed", "implfut": "KBoxed", "oldtrait": "KHelper"}[fn["kind"]]
     return "(mkFunc %s [%s] %s %s)" % (kind, "; ".join(c_param(b) for b in fn["binds"]), c_stmt(fn["body"]), c_expr(fn["tail"]))
 
 
@@ -953,7 +971,7 @@ def c_args(vals, cancel_site=None):
 
 def template_key(fn):
     a = fn["attrs"]
-    return "%s/%s%s" % ("sync" if fn["kind"] == "sync" else "async", "ret" if a["ret"] else "", "err" if a["err"] else "") + \
+    return "%s/%s%s" % ({"sync": "sync", "oldtrait": "async-helper"}.get(fn["kind"], "async"), "ret" if a["ret"] else "", "err" if a["err"] else "") + \
            ("" if a["ret"] or a["err"] else "plain")
 
 
